@@ -92,32 +92,31 @@ class ParserState:
 
         with self.suppress_failures():
             while True:
-                matched = False
-
                 if whitespace_rule:
                     self.checkpoint()
                     matched = whitespace_rule.parse(self, children)
                     if matched:
                         some = True
                         pairs.extend(children)
+                        children.clear()
                         self.ok()
-                    else:
-                        self.restore()
+                        continue
+                    self.restore()
                     children.clear()
 
                 if comment_rule:
                     self.checkpoint()
-                    matched = comment_rule.parse(self, children) or matched
+                    matched = comment_rule.parse(self, children)
                     if matched:
                         some = True
                         pairs.extend(children)
+                        children.clear()
                         self.ok()
-                    else:
-                        self.restore()
+                        continue
+                    self.restore()
                     children.clear()
 
-                if not matched:
-                    break
+                break
 
         return some
 
